@@ -57,13 +57,42 @@ CALL_ONLY = (PrivateTypeError,)
 # (a TypeError out of a plain ATTRIBUTE access propagates too: Environment.getattr / getitem only turn it into
 # undefined for ITEM access; so "attr" events qualify, "item" / "len" / "iter" ones do not)
 # ("len" is deliberately absent: CPython's own list() / length-hint machinery swallows a TypeError out of __len__)
-CALL_KINDS = ("call", "acall", "gcall", "agen", "anext", "next", "gcoro", "gen", "attr")
+# ("str": no engine code treats a TypeError out of a value's string conversion as a signal - the `format` filter, string
+# concatenation and output all hand it on)
+CALL_KINDS = ("call", "acall", "gcall", "agen", "anext", "next", "gcoro", "gen", "attr", "str")
 
 
 # exceptions a data object may raise; none of them is a documented lookup signal
 # (AttributeError / LookupError / TypeError become undefined in some contexts, StopIteration from a callable too)
 FAULT_CLASSES = (PrivateFault, PrivateAbort, PrivateValueError, PrivateRuntimeError, PrivateOSError, PrivateArithmeticError,
                  GuardedFault, PrivateTypeError)
+
+
+def call_only(exc) -> bool:
+    return isinstance(exc, CALL_ONLY) or getattr(type(exc), "SIM_CALL_ONLY", False)
+
+
+_JINJA_FAULTS = None
+
+
+def jinja_fault_classes() -> tuple:
+    """Exception classes of the ENGINE'S OWN hierarchy raised by data: a lookup helper that raises ``UndefinedError`` for an
+    unknown key, a widget whose method renders a nested strict template, a helper that raises ``TemplateRuntimeError``.
+    They are the data's exceptions like any other; injected at call-like events only (``select_template`` documents that
+    an ``UndefinedError`` while *loading* a candidate means "try the next one").  Created lazily: jinja2 must come from the
+    tree under test."""
+    global _JINJA_FAULTS
+    if _JINJA_FAULTS is None:
+        import jinja2
+
+        class PrivateUndefinedError(jinja2.UndefinedError):
+            SIM_CALL_ONLY = True
+
+        class PrivateTemplateRuntimeError(jinja2.TemplateRuntimeError):
+            SIM_CALL_ONLY = True
+
+        _JINJA_FAULTS = (PrivateUndefinedError, PrivateTemplateRuntimeError)
+    return _JINJA_FAULTS
 
 
 class Events:
@@ -80,7 +109,7 @@ class Events:
     def ev(self, kind: str) -> None:
         self.n += 1
         if self.n == self.fault_at and self.exc is not None:
-            if isinstance(self.exc, CALL_ONLY) and kind not in CALL_KINDS:
+            if call_only(self.exc) and kind not in CALL_KINDS:
                 return  # this fault class is only meaningful inside a call
             self.fired = True
             self.fired_kind = kind
@@ -172,6 +201,26 @@ def make_async_data(tape, events: Events, *, gate_stream: str = "g", data_stream
         def __repr__(self_) -> str:
             return "EvStr()"
 
+    class AObj:
+        """An object with an AWAITABLE attribute (an async property / a lazily loaded relation): in async mode
+        `map(attribute=...)` awaits what the attribute lookup returns."""
+
+        def __init__(self_, v) -> None:
+            self_.v = v
+
+        @property
+        def ap(self_):
+            async def get():
+                events.ev("acall")
+                await asyncio.sleep(GATE_DELAYS[tape.draw(len(GATE_DELAYS), gate_stream)])
+                return self_.v
+
+            return get()
+
+        def __repr__(self_) -> str:
+            return f"AObj({self_.v!r})"
+
+    data["alo"] = [AObj(v) for v in items[:3]]
     data.update(
         sg1=sg1, so1=EvStr(),
         gc1=gc1, f1=f1, f2=f2, af1=af1, af2=af2,
